@@ -1,4 +1,4 @@
-"""Transform-time dtype grid (C05): a fitted quantitative feature receives new frames whose column uses
+"""Transform-time dtype grid (C04, C05, C06): a fitted quantitative feature receives new frames whose column uses
 the various numeric pandas dtypes (float64, int64, object, nullable Int64/Float64/boolean) with or
 without missing markers (NaN, None, pd.NA).  The picks are solver-chosen; data are concrete."""
 from __future__ import annotations
@@ -17,10 +17,17 @@ def h_dtype(ctx, fitted_with_nan, via):
     from AutoCarver.discretizers.utils.base_discretizers import BaseDiscretizer
 
     # ---- a fitted object: boundaries 2, 5, inf (+ NaN merged into the first group when fitted_with_nan)
+    # magnitude "big": integer boundaries and values beyond 2**53, where float64 cannot tell neighbours apart
+    big = bool(ctx.choose("magnitude", 2))
+    OFF = 2**60 if big else 0
+    if big and via != "base":
+        from symx import Infeasible
+        raise Infeasible()
     if via == "base":
-        content = {2.0: [2.0], 5.0: [5.0], float("inf"): [float("inf")]}
+        b1, b2 = (OFF + 2, OFF + 5) if big else (2.0, 5.0)
+        content = {b1: [b1], b2: [b2], float("inf"): [float("inf")]}
         if fitted_with_nan:
-            content = {2.0: [NAN, 2.0], 5.0: [5.0], float("inf"): [float("inf")]}
+            content = {b1: [NAN, b1], b2: [b2], float("inf"): [float("inf")]}
         obj = BaseDiscretizer(["f"], values_orders={"f": GroupedList(content)}, input_dtypes="float", output_dtype="float", str_nan=NAN, dropna=True, copy=True, verbose=False)
         obj.fit()
     else:
@@ -36,12 +43,15 @@ def h_dtype(ctx, fitted_with_nan, via):
             raise Infeasible()
     fitted_labels = set(obj.labels_per_values["f"].values())
     # ---- the new frame
-    dtypes = ["float64", "int64", "object", "Int64", "Float64", "float32"]
+    dtypes = ["float64", "int64", "object", "Int64", "Float64", "float32", "uint64", "UInt64"]
     dt = dtypes[ctx.choose("dtype", len(dtypes))]
-    vals = [1, 4, 9, 2, 5]
+    vals = [OFF + v for v in (1, 4, 9, 2, 5, 3, 6)]
+    if big and dt in ("float64", "Float64", "float32"):
+        from symx import Infeasible
+        raise Infeasible()
     missing = [None, "nan", "None", "NA"][ctx.choose("missing", 4)]
     pos = ctx.choose("pos", len(vals))
-    if dt == "int64" and missing is not None:
+    if (dt in ("int64", "uint64") or big) and missing is not None:
         from symx import Infeasible
         raise Infeasible()
     data = list(vals)
@@ -50,7 +60,7 @@ def h_dtype(ctx, fitted_with_nan, via):
     try:
         if dt == "object":
             s = pd.Series(data, dtype=object)
-        elif dt in ("Int64", "Float64"):
+        elif dt in ("Int64", "Float64", "UInt64"):
             s = pd.Series([pd.NA if (v is None or v is pd.NA or (isinstance(v, float) and v != v)) else v for v in data], dtype=dt)
         else:
             s = pd.Series([np.nan if (v is None or v is pd.NA) else v for v in data], dtype=dt)
@@ -69,7 +79,7 @@ def h_dtype(ctx, fitted_with_nan, via):
         raise
     except Exception as e:
         ctx.require(False, "C05.internal-error", f"transform of a {dt} column ({'with ' + missing if missing else 'no missing'}; feature fitted {'with' if fitted_with_nan else 'without'} NaN) raised {type(e).__name__}: {str(e)[:120]}",
-                    dict(dtype=dt, nullable=dt in ("Int64", "Float64")))
+                    dict(dtype=dt, nullable=dt in ("Int64", "Float64", "UInt64")))
     if has_missing and not fitted_with_nan:
         ctx.require(outcome == "AssertionError", "C05.unexpected-nan-accepted", f"{dt} column with {missing}: missing value accepted although none was seen at fit", dict(dtype=dt))
         ctx.require("'f'" in msg, "C05.error-does-not-name-feature", msg[:120])
@@ -78,6 +88,16 @@ def h_dtype(ctx, fitted_with_nan, via):
     col_out = list(out["f"])
     for v, o in zip(data, col_out):
         ctx.require(o in fitted_labels, "C05.raw-value-leak", f"{dt} column: value {v!r} -> {o!r}, not a fitted label {sorted(fitted_labels)}", dict(dtype=dt))
+    # C04: every row gets the label of the first fitted group whose upper bound is >= its value (exact comparison)
+    leaders = [v for v in list(obj.values_orders["f"]) if not (isinstance(v, str) and v == NAN)]
+    for v, o in zip(data, col_out):
+        if v is None or v is pd.NA or (isinstance(v, float) and v != v):
+            continue
+        lead = next(l for l in leaders if v <= l)
+        want = obj.labels_per_values["f"][lead]
+        ctx.require(o == want, "C04.wrong-group", f"{dt} column: value {v!r} labelled {o!r}, but the first group whose upper bound is >= the value is {lead!r} (label {want!r})", dict(dtype=dt, magnitude="big" if big else "small"))
+    if big:
+        return dict(counters={"ok": 1, "big": 1}, sample=dict(dtype=dt, magnitude="big", out=col_out), result=dict(out=col_out))
     # same labels as the float64 rendering of the same values
     Xf = pd.DataFrame({"f": pd.Series([np.nan if (v is None or v is pd.NA) else v for v in data], dtype="float64")})
     ref = list(obj.transform(Xf)["f"])
@@ -89,6 +109,6 @@ def obligation(tier, name):
     jobs = [dict(fitted_with_nan=w, via=v) for w in (False, True) for v in ("base", "carver")]
     return Obligation(
         name=name, harness=h_dtype, jobs=jobs, encodes=["BaseDiscretizer.transform/_prepare_data/_transform_quantitative", "transform_quantitative_feature"],
-        bounds="fitted BaseDiscretizer / BinaryCarver (with and without NaN at fit); new 5-row frame whose column dtype is solver-chosen in {float64, float32, int64, object, Int64, Float64} with an optional missing marker (NaN, None, pd.NA) at a solver-chosen position",
+        bounds="fitted BaseDiscretizer / BinaryCarver (with and without NaN at fit); new 5-row frame whose column dtype is solver-chosen in {float64, float32, int64, uint64, object, Int64, UInt64, Float64} with an optional missing marker (NaN, None, pd.NA) at a solver-chosen position; magnitudes ~1 and 2**60 (integer dtypes)",
         outside="other extension dtypes (decimal, string, categorical)", twin_every=2,
     )
